@@ -267,7 +267,9 @@ def random_trace(rep, base, nhist):
     lines += [{"form": "rule_line", "pat": "P4", "n": [7, 1, 0], "w": ""}, {"form": "rule_line", "pat": "P5", "n": [5, 2, 0], "w": ""}, {"form": "rule_line", "pat": "P4", "n": [5, 2, 0], "w": ""}]
     # a custom rule may carry the name of a built-in rule; deleting by a built-in rule's name deletes custom rules only
     rules = RULES + [{"name": "convert_money", "pats": ["P2"], "beh": "double"}, {"name": "n6", "pats": ["P6"], "beh": "double"}, {"name": "n2", "pats": ["P6", "P1"], "beh": "usd"},
-                     {"name": "n7", "pats": ["P7"], "beh": "guard100"}]
+                     {"name": "n7", "pats": ["P7"], "beh": "guard100"},
+                     # names are compared as they are written: N1 is not n1
+                     {"name": "N1", "pats": ["P2"], "beh": "usd"}, {"name": "N3", "pats": ["P1"], "beh": "double"}]
     items = [{"idx": 1, "up": [1, 4, 0], "down": [1, 1, 0]}, {"idx": 2, "up": [1, 5, 0], "down": [4, 1, 0]}, {"idx": 3, "up": [1, 1, 0], "down": [5, 1, 0]},
              {"idx": 2, "up": [1, 2, 0], "down": [3, 1, 0]}]
     cases, metas = [], []
@@ -282,7 +284,7 @@ def random_trace(rep, base, nhist):
                     hs.append({"call": "add_rule", "lang": "xx" if rng.random() < 0.1 else "en", "r": rng.choice(rules)})
             elif x < 0.4:
                 hs.append({"call": "delete_rule", "lang": "tr" if rng.random() < 0.25 else "en",
-                           "name": rng.choice(["n1", "n2", "n3", "n4", "n9", "t1", "t2", "convert_money", "small_date", "duration_parse", "number_of"])})
+                           "name": rng.choice(["n1", "n2", "n3", "n4", "n9", "t1", "t2", "convert_money", "small_date", "duration_parse", "number_of", "N1", "N2", "N3", "Convert_Money"])})
             elif x < 0.43:
                 hs.append({"call": "set_date_rule", "lang": rng.choice(["en", "tr"])})
             elif x < 0.47:
